@@ -482,7 +482,10 @@ func (root *Root) replaceArgVars(vars map[string]interface{}, v interface{}, at 
 			}
 		}
 	case map[string]interface{}:
-		if it, _ := BaseType(at).(*Input); it != nil {
+		// Only NonNull is looked through. An object literal is not a value of
+		// a list type, a list of an input type is left to the coercer of the
+		// list.
+		if it, _ := withoutNonNull(at).(*Input); it != nil {
 			// Build a new map, the literal in the parsed request must not
 			// change so that the request can be evaluated again.
 			nv := make(map[string]interface{}, len(tv))
@@ -526,11 +529,7 @@ func (root *Root) replaceArgVars(vars map[string]interface{}, v interface{}, at 
 	case Symbol:
 		// Only NonNull is looked through. A symbol is not a value of a list
 		// type, a list of an enum is left to the coercer of the list.
-		bt := at
-		for nn, _ := bt.(*NonNull); nn != nil; nn, _ = bt.(*NonNull) {
-			bt = nn.Base
-		}
-		if et, _ := bt.(*Enum); et != nil {
+		if et, _ := withoutNonNull(at).(*Enum); et != nil {
 			if _, has := et.values.dict[string(tv)]; !has {
 				ea = append(ea, resWarnp(nil, "%s is not a valid enum value in %s", tv, et.N))
 			}
@@ -547,6 +546,14 @@ func (root *Root) replaceArgVars(vars map[string]interface{}, v interface{}, at 
 		}
 	}
 	return
+}
+
+// withoutNonNull returns the type inside any number of NonNull wrappers.
+func withoutNonNull(t Type) Type {
+	for nn, _ := t.(*NonNull); nn != nil; nn, _ = t.(*NonNull) {
+		t = nn.Base
+	}
+	return t
 }
 
 func (root *Root) resolveField(
